@@ -114,9 +114,46 @@ let run_a ?(multi = false) (live : bool) (ops : string list) : string =
   if multi then push "REPL same";
   String.concat " / " (List.rev !obs)
 
+(* ---- receiver not in syncer-only mode: the conflict model (Sync/Conflict.v), recheck = false = the code ---- *)
+let dump_c (d : cdata) (maxc : int) : string =
+  let js = List.map (fun (t, p) -> dec_of_n t ^ ":" ^ dec_of_n p) d.cd_journal in
+  let cs = List.init (maxc + 1) (fun c -> c) in
+  let ns = List.map (fun c -> Printf.sprintf "%d=%s" c (dec_of_n (kv_get (n_of_int c) d.cd_kv).kv_cnt)) cs in
+  let als = List.map (fun c -> Printf.sprintf "%d=%s" c
+              (String.concat "" (List.map (fun b -> String.make 1 (Char.chr (int_of_n b))) (kv_get (n_of_int c) d.cd_kv).kv_str))) cs in
+  "J=" ^ String.concat "," js ^ ";N=" ^ String.concat "," ns ^ ";A=" ^ String.concat "," als
+
+let run_m0 (ops : string list) : string =
+  let nd = ref init_cnode in
+  let maxc = ref 0 in
+  let obs = ref [] in
+  let push s = obs := s :: !obs in
+  let do_op o =
+    let (nd', r) = cstep false !nd o in
+    nd := nd';
+    push (Printf.sprintf "%s;%s;%d;-" (res_str r) (synced_str !nd.cn_cur.cs_synced) (List.length !nd.cn_cur.cs_data.cd_journal)) in
+  List.iter (fun op ->
+    match split_on ':' op with
+    | ["M"; m] -> do_op (CMode (m = "0"))
+    | ["D"; c; t; i; ts; p; f] ->
+      if int_of_string c > !maxc then maxc := int_of_string c;
+      do_op (CDeliver (sentry_of c t i ts p, f <> "b", f <> "f"))
+    | ["C"; n] -> do_op (CCommit (nat_of_int (int_of_string n)))
+    | ["X"] -> do_op CLose
+    | ["L"; p] -> do_op (CLocalW (n_of_dec p, n_of_dec "1600000000000000000"))
+    | ["L"; p; ts] -> do_op (CLocalW (n_of_dec p, n_of_dec ts))
+    | ["S"] -> do_op CSnap
+    | ["R"; _] -> do_op CRestart
+    | _ -> push "badop") ops;
+  push ("END " ^ dump_c !nd.cn_cur.cs_data !maxc);
+  String.concat " / " (List.rev !obs)
+
 let () =
   read_lines stdin (fun line ->
     match split_on '\t' line with
+    | id :: "A" :: _eng :: "m0" :: ops :: _ ->
+      let ops = List.filter (fun s -> s <> "") (split_on ' ' ops) in
+      Printf.printf "%s\t%s\n" id (run_m0 ops)
     | id :: (("A" | "B" | "M") as kind) :: _eng :: _cls :: ops :: _ ->
       let ops = List.filter (fun s -> s <> "") (split_on ' ' ops) in
       Printf.printf "%s\t%s\n" id (run_a ~multi:(kind = "M") (kind = "B") ops)
